@@ -124,8 +124,9 @@ def theorem_names(module):
     return names
 
 
-def lean_stage(modules, timeout=1500):
-    """translator -> lake build <modules> -> #print axioms audit -> hygiene grep."""
+def lean_stage(modules, timeout=1500, recheck=False):
+    """translator -> lake build <modules> -> #print axioms audit -> hygiene grep [-> leanchecker, the independent re-checker of the compiled
+    .olean files, in the thorough tier]."""
     r = LeanResult()
     t0 = time.time()
     lock = _lock()
@@ -182,6 +183,13 @@ def lean_stage(modules, timeout=1500):
         if h:
             r.ok = False
             r.problems.append("hygiene: " + "; ".join(h[:5]))
+        if recheck and r.ok:
+            props = [m for m in modules if ".Props." in m]
+            p = subprocess.run(["lake", "env", "leanchecker"] + props, cwd=LEAN, capture_output=True, text=True, timeout=timeout)
+            r.build_cmd += " && lake env leanchecker " + " ".join(props)
+            if p.returncode != 0:
+                r.ok = False
+                r.problems.append("leanchecker rejected the compiled modules: " + (p.stdout + p.stderr).strip()[-300:])
     except subprocess.TimeoutExpired as e:
         raise InfraError("lean stage timed out: %s" % e)
     finally:
